@@ -307,6 +307,63 @@ theorem elBin_div (c : Cfg) (x y : ENum) (hx : x.InRange) (hy : y.InRange) (h0 :
       simp only [elBin, hp, hR, hO, Cnl.convert, IntTy.wrap_id hOb1 hxO, IntTy.wrap_id hOb1 hyO,
         repOp_div c hOb1 hxO hyO h0 hqP, IntTy.wrap_id hRb1 hqR]
 
+/-- `%`: the exact remainder of the truncating division (sign of the dividend) of two in-range operands of any
+narrowest types — an unsigned dividend against a negative signed divisor included: the result is signed when either
+operand is, and both operands convert unchanged into one storage type that holds either of them -/
+theorem elBin_mod (c : Cfg) (x y : ENum) (hx : x.InRange) (hy : y.InRange) (h0 : y.value ≠ 0) :
+    (elBin (repOp c) .mod x y
+        = .ok ⟨min x.digits y.digits, ⟨max x.narrowest.bits y.narrowest.bits, x.narrowest.signed || y.narrowest.signed⟩,
+            x.value.tmod y.value⟩ ∧
+      Fits (min x.digits y.digits) (x.narrowest.signed || y.narrowest.signed) (x.value.tmod y.value)) ∨
+    ∃ m, elBin (repOp c) .mod x y = .ill m := by
+  have hp : policy (AOp.toBin .mod) x.digits x.narrowest.signed y.digits y.narrowest.signed
+      = some (min x.digits y.digits, x.narrowest.signed || y.narrowest.signed) := rfl
+  have hp' : policy .mod x.digits x.narrowest.signed y.digits y.narrowest.signed
+      = some (min x.digits y.digits, x.narrowest.signed || y.narrowest.signed) := rfl
+  cases hR : storage ⟨max x.narrowest.bits y.narrowest.bits, x.narrowest.signed || y.narrowest.signed⟩
+      (min x.digits y.digits) with
+  | none => right; exact ⟨_, by simp only [elBin, hp', hR] <;> rfl⟩
+  | some R =>
+    cases hO : storage ⟨max x.narrowest.bits y.narrowest.bits, x.narrowest.signed || y.narrowest.signed⟩
+        (max (min x.digits y.digits) (max x.digits y.digits)) with
+    | none => right; exact ⟨_, by simp only [elBin, hp', hR, hO] <;> rfl⟩
+    | some O =>
+      left
+      have ⟨hRs, hRd, hRb⟩ := storage_spec hR
+      have ⟨hOs, hOd, hOb⟩ := storage_spec hO
+      simp only at hRs hOs
+      have hOb1 : 1 ≤ O.bits := by omega
+      have hRb1 : 1 ≤ R.bits := by omega
+      have hOsg : O.signed = false → (x.narrowest.signed || y.narrowest.signed) = false := fun h => by rw [← hOs]; exact h
+      have hRsg : R.signed = false → (x.narrowest.signed || y.narrowest.signed) = false := fun h => by rw [← hRs]; exact h
+      have hPsg : (promote O).signed = false → (x.narrowest.signed || y.narrowest.signed) = false :=
+        fun h => hOsg (promote_unsigned h).1
+      have hxO : O.InRange x.value := inRange_of_fits (by omega) hx (fun h => (or_false_iff' (hOsg h)).1)
+      have hyO : O.InRange y.value := inRange_of_fits (by omega) hy (fun h => (or_false_iff' (hOsg h)).2)
+      have he : Fits (min x.digits y.digits) (x.narrowest.signed || y.narrowest.signed) (exact .mod x.value y.value) :=
+        exact_fits .mod hx hy (fun _ => h0) hp
+      have heP : (promote O).InRange (exact .mod x.value y.value) :=
+        inRange_of_fits (by have := promote_digits_le hOb1; omega) he hPsg
+      have heR : R.InRange (exact .mod x.value y.value) := inRange_of_fits (by omega) he hRsg
+      have hdiv : ((AOp.mod = .div) ∨ (AOp.mod = .mod)) → y.value ≠ 0 ∧ ¬(x.value = (promote O).lowest ∧ y.value = -1) := by
+        intro _
+        refine ⟨h0, fun ⟨h1, h2⟩ => ?_⟩
+        have hyP := (promote_inRange hOb1 hyO).1
+        rw [IntTy.lowest_eq] at hyP h1
+        have hx' := ((fits_iff.mp hx).1).1
+        have hpw : (2:Int)^x.digits ≤ 2^(promote O).digits := two_pow_le (by have := promote_digits_le hOb1; omega)
+        by_cases hs : (promote O).signed = true
+        · simp only [hs, ite_true] at h1; omega
+        · simp only [hs] at hyP; simp at hyP; omega
+      have hc := cBin_same_exact O hOb1 .mod x.value y.value hxO hyO heP hdiv
+      have hne : BinOp.mod ≠ .div := by intro h; cases h
+      refine ⟨?_, he⟩
+      simp only [elBin, hp', hR, hO, Cnl.convert, IntTy.wrap_id hOb1 hxO, IntTy.wrap_id hOb1 hyO,
+        repOp_eq_cBin c _ hne]
+      have hc' : cBin .mod (O, x.value) (O, y.value) = .ok (promote O, exact .mod x.value y.value) := hc
+      simp only [hc', IntTy.wrap_id hRb1 heR]
+      rfl
+
 /-- unary minus: exact, same digits, the signed narrowest type of the same width -/
 theorem elNegE_spec (x : ENum) (hx : x.InRange) :
     (elNegE x = .ok ⟨x.digits, ⟨x.narrowest.bits, true⟩, -x.value⟩ ∧ Fits x.digits true (-x.value)) ∨
